@@ -6,12 +6,12 @@ PART = {
         "C14_update_composes", "C14_update_composes_impl", "C14_update_assoc", "C14_bit_serial",
         "C14_burst_detected", "C14_burst_detected_spec", "C14_burst_detected_xor",
         "C14_four_bytes_detected", "C14_single_byte_detected", "C14_single_bit_detected")],
-    components=["crc"],
+    components=["crc", "pagecrc"],
     fidelity={"Impl.Crc32": "exact"},
     rule="crc: all lengths 0..257 (thorough 0..1025) x alignment x fill kind; all splits of strings <= 24 bytes + "
          "random splits; crc_dmg: every single bit / every position of a solid and of a two-ends 32-bit burst in a "
          "19-byte message, random bursts (any length, start, width 1..32) in messages up to 64 (thorough 300) bytes, "
-         "real checksum must change; distinct = distinct (op, input bytes)",
+         "real checksum must change; pagecrc: 5 (thorough 20) carquet-written files over 5 codecs, every page body: single bits, byte changes, random bursts <= 32 bits and two-ends 32-bit windows (thorough: every bit of pages <= 96 bytes) x {fread, mmap, buffer}: verification on must report an error, the clean file must not, verification off must stay memory-safe (forked child); distinct = distinct (op, input bytes)",
     assumptions=["little-endian host (memcpy loads)", "ARM hardware CRC path not compiled on this host"],
     trusted_base=["zlib crc32() as C-side oracle"],
     text="CRC function part: proved for all inputs that the table/slicing-by-8 model of carquet_crc32 equals the bit-serial "
